@@ -297,8 +297,12 @@ func robustResponses(r *simcore.Run, w *worlds) {
 			if s.Chance(60, "corrupt?") {
 				f.Kind = simcore.Pick(s, kinds, "fault-kind")
 				f.N = s.Draw(400, "fault-n")
-				if f.Kind == simnet.Status {
+				switch f.Kind {
+				case simnet.Status:
 					f.Code = []int{200, 204, 301, 401, 500}[s.Draw(5, "status")]
+				case simnet.TypeConfuse:
+					// error statuses with a JSON body of the wrong shape (e.g. a token endpoint error document without its required members)
+					f.Code = []int{0, 0, 400, 401, 403, 500}[s.Draw(6, "confused-status")]
 				}
 			}
 			faults[host] = f
